@@ -20,16 +20,14 @@ use std::{
 use parking_lot::{ArcRwLockReadGuard, ArcRwLockWriteGuard, RawRwLock, RwLock};
 
 #[derive(Debug)]
-pub(crate) struct ReadLatch<P>(
-    ArcRwLockReadGuard<RawRwLock, P>,
-    #[cfg(feature = "verif")] crate::verif::locktap::Held,
-);
+pub(crate) struct ReadLatch<P>(ArcRwLockReadGuard<RawRwLock, P>);
 
 pub trait Latch<P>: Deref<Target = P> {}
 
-#[cfg(not(feature = "verif"))]
 impl<P> ReadLatch<P> {
     pub(crate) fn new(lock: &Arc<RwLock<P>>) -> Self {
+        #[cfg(feature = "verif")]
+        crate::verif::locktap::latch_acquire(Arc::as_ptr(lock) as *const () as usize, false);
         // A scan takes a second read latch on the leaf it is already reading. A plain `read`
         // queues behind a waiting writer, which waits for the first latch: deadlock. The
         // recursive form never queues behind writers.
@@ -38,12 +36,10 @@ impl<P> ReadLatch<P> {
 }
 
 #[cfg(feature = "verif")]
-impl<P: Identifiable<IdType = PageId>> ReadLatch<P> {
-    pub(crate) fn new(lock: &Arc<RwLock<P>>) -> Self {
-        crate::verif::yield_point();
-        let guard = lock.read_arc_recursive();
-        let held = crate::verif::locktap::Held::page(u64::from(guard.id()), false);
-        Self(guard, held)
+impl<P> Drop for ReadLatch<P> {
+    fn drop(&mut self) {
+        let lock = ArcRwLockReadGuard::rwlock(&self.0);
+        crate::verif::locktap::latch_release(Arc::as_ptr(lock) as *const () as usize);
     }
 }
 
@@ -57,25 +53,21 @@ impl<P> Deref for ReadLatch<P> {
 }
 
 #[derive(Debug)]
-pub(crate) struct WriteLatch<P>(
-    ArcRwLockWriteGuard<RawRwLock, P>,
-    #[cfg(feature = "verif")] crate::verif::locktap::Held,
-);
+pub(crate) struct WriteLatch<P>(ArcRwLockWriteGuard<RawRwLock, P>);
 
-#[cfg(not(feature = "verif"))]
 impl<P> WriteLatch<P> {
     pub(crate) fn new(lock: &Arc<RwLock<P>>) -> Self {
+        #[cfg(feature = "verif")]
+        crate::verif::locktap::latch_acquire(Arc::as_ptr(lock) as *const () as usize, true);
         Self(lock.write_arc())
     }
 }
 
 #[cfg(feature = "verif")]
-impl<P: Identifiable<IdType = PageId>> WriteLatch<P> {
-    pub(crate) fn new(lock: &Arc<RwLock<P>>) -> Self {
-        crate::verif::yield_point();
-        let guard = lock.write_arc();
-        let held = crate::verif::locktap::Held::page(u64::from(guard.id()), true);
-        Self(guard, held)
+impl<P> Drop for WriteLatch<P> {
+    fn drop(&mut self) {
+        let lock = ArcRwLockWriteGuard::rwlock(&self.0);
+        crate::verif::locktap::latch_release(Arc::as_ptr(lock) as *const () as usize);
     }
 }
 
